@@ -50,8 +50,16 @@ class TLCResult:
 
 
 def run_tlc(module, cfg, workers=None, env=None, timeout=900, simulate=None, depth=None, seed=None,
-            coverage=False, deque=False, extra=None, cwd=SPEC):
-    """Run TLC on spec/<module>.tla with spec/<cfg> (or an absolute cfg path)."""
+            coverage=False, deque=False, extra=None, cwd=SPEC, only=None):
+    """Run TLC on spec/<module>.tla with spec/<cfg> (or an absolute cfg path).
+    only=<name>: check just that INVARIANT / PROPERTY of the cfg -- for siblings that MUST be rejected for a stated reason: with
+    several workers TLC reports whichever violated invariant it meets first, and a broken sibling usually violates several."""
+    if only:
+        src = cfg if os.path.isabs(cfg) else os.path.join(cwd, cfg)
+        lines = [ln for ln in open(src).read().split("\n")
+                 if not re.match(r"\s*(INVARIANT|PROPERTY)\b", ln) or re.match(r"\s*(INVARIANT|PROPERTY)\s+%s\s*$" % re.escape(only), ln)]
+        cfg = os.path.join(mktemp("cfg_"), os.path.basename(cfg))
+        open(cfg, "w").write("\n".join(lines))
     meta = mktemp("tlcmeta_")
     java_opts = ["-XX:+UseParallelGC"]
     if deque:
